@@ -7,6 +7,9 @@ The harness runs the implementation on the same ops and diffs the outputs.
 -/
 open Vnc Vnc.Drv
 
+def hexW (x : Word) : String := hexOfStr (String.ofList x)
+def wordOfHex (h : String) : Option Word := (strOfHex h).map String.toList
+
 def famStr : Family → String
   | .inet => "inet" | .inet6 => "inet6" | .unix => "unix" | .unspec => "unspec"
 
@@ -150,6 +153,12 @@ structure Drv where
   zq : List (Option Bytes) := []
   cv : Canvas := {}
   mode : String := "RGBX"
+  app : Option App := none
+  imgs : List (Word × Option (Nat × Nat × List Nat)) := []
+  pauses : List (Word × Nat) := []
+  rmss : List (Word × Nat × Nat) := []
+  uppers : List Word := []
+  exit : ExitSt := {}
   px : Option (St PSt) := none
   rcd : RecSt := { last := 0 }
   now : Nat := 0
@@ -197,15 +206,72 @@ def doRfbNew (d : Drv) (args : List String) : Drv × String :=
     | _, _, _, _, _, _, _, _, _, _, _ => (d, "bad-op")
   | _ => (d, "bad-op")
 
+/-! ## client application engine -/
+
+def rgbHash (px : List RGB) : UInt64 :=
+  px.foldl (fun h p => (((h ^^^ p.1.toUInt64) * 1099511628211 ^^^ p.2.1.toUInt64) * 1099511628211 ^^^ p.2.2.toUInt64) * 1099511628211)
+    14695981039346656037
+
+def actTok : Act → String
+  | .write b => "w:" ++ showHex b
+  | .save f w h px => s!"save:{hexW f}:{w}:{h}:{(rgbHash px).toNat}"
+  | .start i => s!"start:{i}"
+  | .finish i => s!"finish:{i}"
+  | .close => "close"
+  | .chainFailed c => "chainfailed:" ++ c
+
+def parseCmdTok (t : String) : Option Cmd :=
+  match t.splitOn ":" with
+  | ["keyPress", k] => (wordOfHex k).map .keyPress
+  | ["keyDown", k] => (wordOfHex k).map .keyDown
+  | ["keyUp", k] => (wordOfHex k).map .keyUp
+  | ["mouseMove", x, y] => do some (.mouseMove (← x.toInt?) (← y.toInt?))
+  | ["mousePress", b] => b.toInt?.map .mousePress
+  | ["mouseDown", b] => b.toInt?.map .mouseDown
+  | ["mouseUp", b] => b.toInt?.map .mouseUp
+  | ["mouseDrag", x, y] => do some (.mouseDrag (← x.toInt?) (← y.toInt?))
+  | ["pauseArg", d] => (wordOfHex d).map .pauseArg
+  | ["pauseDelay"] => some .pauseDelay
+  | ["paste", c] => (wordOfHex c).map .paste
+  | ["captureScreen", f] => (wordOfHex f).map .captureScreen
+  | ["captureRegion", f, x, y, w, h] => do some (.captureRegion (← wordOfHex f) (← x.toInt?) (← y.toInt?) (← w.toInt?) (← h.toInt?))
+  | ["expectScreen", f, r] => do some (.expectScreen (← wordOfHex f) (← wordOfHex r))
+  | ["expectRegion", f, x, y, r] => do some (.expectRegion (← wordOfHex f) (← x.toInt?) (← y.toInt?) (← wordOfHex r))
+  | _ => none
+
+def mkEnv (d : Drv) (delayTicks : Nat) (fc inc : Bool) : Env :=
+  { image := fun f => match d.imgs.find? (fun e => e.1 == f) with | some e => e.2 | none => none,
+    pauseTicks := fun wd => match d.pauses.find? (fun e => e.1 == wd) with | some e => e.2 | none => 0,
+    delayTicks := delayTicks,
+    within := fun r sum len => match d.rmss.find? (fun e => e.1 == r) with
+      | some e => decide (sum * e.2.2 * e.2.2 ≤ e.2.1 * e.2.1 * len)
+      | none => false,
+    isUpper := fun k => d.uppers.contains k, forceCaps := fc, incremental := inc }
+
+/-- fold the application's reactions into the token stream of one chunk -/
+def reactOuts (core : Core) (mode : String) (cv : Canvas) (app : Option App) (outs : List Out) :
+    Canvas × Option App × List String :=
+  outs.foldl (fun (acc : Canvas × Option App × List String) o =>
+    let cv := applyOut mode acc.1 o
+    match acc.2.1 with
+    | none => (cv, none, acc.2.2 ++ [outTok o])
+    | some a =>
+      let (a', acts) := match o with
+        | .made => onConnected core cv.screen a
+        | .commit _ => onCommit core cv.screen a
+        | _ => (a, [])
+      ({ cv with ptrX := a'.ptr.x, ptrY := a'.ptr.y }, some a', acc.2.2 ++ [outTok o] ++ acts.map actTok)) (cv, app, [])
+
 def doRfbRecv (d : Drv) (args : List String) : Drv × String :=
   match d.rfb, args with
   | some st, [h] =>
     match bytesOfHex h with
     | some chunk =>
       let r := feed rfbMachine st chunk
-      let toks := r.2.1.map outTok ++ (if r.2.2 then [] else ["diverged"])
-      let cv := freezeCv (applyOuts r.1.s.core.imageMode d.cv r.2.1)
-      ({ d with rfb := some r.1, cv := cv }, s!"buf={r.1.buf.length} " ++ (if toks.isEmpty then "-" else " ".intercalate toks))
+      let (cv, app, toks) := reactOuts r.1.s.core r.1.s.core.imageMode d.cv d.app r.2.1
+      let toks := toks ++ (if r.2.2 then [] else ["diverged"])
+      ({ d with rfb := some r.1, cv := freezeCv cv, app := app },
+        s!"buf={r.1.buf.length} " ++ (if toks.isEmpty then "-" else " ".intercalate toks))
     | none => (d, "bad-op")
   | _, _ => (d, "bad-op")
 
@@ -223,7 +289,6 @@ def doRfbVmRecv (d : Drv) (args : List String) : Drv × String :=
 
 /-! ## script compiler -/
 
-def hexW (x : Word) : String := hexOfStr (String.ofList x)
 
 def cmdTok : Cmd → String
   | .keyPress k => "keyPress:" ++ hexW k
@@ -245,7 +310,6 @@ def cmdTok : Cmd → String
 def perrTok : PErr → String
   | .index => "index" | .value => "value" | .parse => "parse" | .os => "os" | .fuel => "fuel"
 
-def wordOfHex (h : String) : Option Word := (strOfHex h).map String.toList
 
 /-- `compile <delay> F <name> <tokens,|-> <content|none> … FL <float words…> W <words…>` -/
 def doCompile (args : List String) : String :=
@@ -278,6 +342,71 @@ def doCompile (args : List String) : String :=
     | _, _ => "bad-op"
   | _ => "bad-op"
 
+/-! ## crypto -/
+
+def natOfHex (h : String) : Option Nat := (bytesOfHex h).map beNat
+
+def doCrypto (op : String) (args : List String) : String :=
+  match op, args with
+  | "des", [k, b] =>
+    match bytesOfHex k, bytesOfHex b with
+    | some k, some b => "ok " ++ showHex (DES.encryptBlock k b)
+    | _, _ => "bad-op"
+  | "vnckey", [pw] =>
+    match strOfHex pw with
+    | some pw => match vncDesKey pw.toList with
+      | some k => "ok " ++ showHex k
+      | none => "err unicode"
+    | none => "bad-op"
+  | "vncresp", [pw, ch] =>
+    match strOfHex pw, bytesOfHex ch with
+    | some pw, some ch =>
+      match vncResponse (fun k d => DES.ecb (DES.encryptBlock k) 2 d) pw.toList ch with
+      | some r => "ok " ++ showHex r
+      | none => "err unicode"
+    | _, _ => "bad-op"
+  | "specresp", [pw, ch] =>
+    match bytesOfHex pw, bytesOfHex ch with
+    | some pw, some ch => "ok " ++ showHex (DES.response pw ch)
+    | _, _ => "bad-op"
+  | "ard", [g, l, m, sk, sec] =>
+    match g.toNat?, l.toNat?, natOfHex m, natOfHex sk, natOfHex sec with
+    | some g, some l, some m, some sk, some sec =>
+      "ok " ++ showHex (longToBytes (pyPow g sec m) l) ++ " " ++ showHex (longToBytes (pyPow sk sec m) l)
+    | _, _, _, _, _ => "bad-op"
+  | _, _ => "bad-op"
+
+/-! ## api engine -/
+
+/-- `api-run <outcomes: per client "0,1,0" (1 = the operation fails), clients separated by ;> <labels…>`
+    labels: aN appCall, t reactorTake, fN opFinish, gN appGet, cN:ok connectOk, cN:failE connectFail -/
+def doApiRun (args : List String) : String :=
+  match args with
+  | oc :: labels =>
+    let table : List (List Bool) := (oc.splitOn ";").map fun c => (c.splitOn ",").map (· == "1")
+    let outcome (c k : Nat) : Api.Outcome := if ((table.getD c []).getD k false) then .err (100 + k) else .ok k
+    let parse (l : String) : Option Api.Label :=
+      if l == "t" then some .reactorTake
+      else match l.toList with
+        | 'a' :: r => (String.ofList r).toNat?.map .appCall
+        | 'f' :: r => (String.ofList r).toNat?.map .opFinish
+        | 'g' :: r => (String.ofList r).toNat?.map .appGet
+        | 'c' :: r =>
+          match (String.ofList r).splitOn ":" with
+          | [n, "ok"] => n.toNat?.map .connectOk
+          | [n, f] => if f.startsWith "fail" then n.toNat?.map (fun c => .connectFail c 9) else none
+          | _ => none
+        | _ => none
+    match labels.mapM parse with
+    | none => "bad-op"
+    | some ls =>
+      match Api.run outcome {} ls with
+      | none => "err disabled-label"
+      | some s =>
+        "ok " ++ ";".intercalate ((List.range table.length).map fun c =>
+          ",".intercalate ((s.clients c).returned.map fun r => match r.2 with | .ok _ => "o" | .err _ => "e"))
+  | _ => "bad-op"
+
 def handle (line : String) : String :=
   match (line.splitOn " ").filter (· ≠ "") with
   | "addr" :: args => doAddr args
@@ -286,6 +415,8 @@ def handle (line : String) : String :=
   | "ptr" :: args => doPtr args
   | "lib" :: args => doLib args
   | "compile" :: args => doCompile args
+  | "crypto" :: op :: args => doCrypto op args
+  | "api-run" :: args => doApiRun args
   | _ => "bad-op"
 
 /-! ## proxy engine -/
@@ -348,6 +479,88 @@ def handleSt (d : Drv) (line : String) : Drv × String :=
   | ["quote", h] => (d, doQuote h)
   | "rfb-recv" :: args => doRfbRecv d args
   | "rfb-vmrecv" :: args => doRfbVmRecv d args
+  | ["app-reset"] => ({ d with imgs := [], pauses := [], rmss := [], uppers := [], app := none, exit := {} }, "ok")
+  | ["app-img", f, w, h, hist] =>
+    match wordOfHex f with
+    | some f =>
+      if hist = "none" then ({ d with imgs := d.imgs ++ [(f, none)] }, "ok")
+      else match w.toNat?, h.toNat?, (hist.splitOn ",").mapM String.toNat? with
+        | some w, some h, some hs => ({ d with imgs := d.imgs ++ [(f, some (w, h, hs))] }, "ok")
+        | _, _, _ => (d, "bad-op")
+    | none => (d, "bad-op")
+  | ["app-pause", wd, t] =>
+    match wordOfHex wd, t.toNat? with
+    | some wd, some t => ({ d with pauses := d.pauses ++ [(wd, t)] }, "ok")
+    | _, _ => (d, "bad-op")
+  | ["app-rms", wd, p, q] =>
+    match wordOfHex wd, p.toNat?, q.toNat? with
+    | some wd, some p, some q => ({ d with rmss := d.rmss ++ [(wd, p, q)] }, "ok")
+    | _, _, _ => (d, "bad-op")
+  | ["app-upper", wd] =>
+    match wordOfHex wd with
+    | some wd => ({ d with uppers := d.uppers ++ [wd] }, "ok")
+    | none => (d, "bad-op")
+  | "app-new" :: dl :: fc :: inc :: cmds =>
+    match dl.toNat?, parseBool? fc, parseBool? inc, cmds.mapM parseCmdTok with
+    | some dl, some fc, some inc, some cs => ({ d with app := some { env := mkEnv d dl fc inc, cmds := cs }, exit := {} }, "ok")
+    | _, _, _, _ => (d, "bad-op")
+  | ["app-fire"] =>
+    match d.app, d.rfb with
+    | some a, some st =>
+      let earliest (a : App) : Option (Nat × Nat) :=
+        a.timers.foldl (fun (best : Option (Nat × Nat)) t => match best with
+          | none => some t
+          | some b => if t.2 < b.2 then some t else some b) none
+      match earliest a with
+      | none => (d, "no-timer")
+      | some (_, due) =>
+        -- like Clock.advance: move to the due time, then run every call that is due, including ones created meanwhile
+        let a := { a with now := max a.now due }
+        let rec go (fuel : Nat) (a : App) (cv : Canvas) (acc : List Act) : App × List Act :=
+          match fuel with
+          | 0 => (a, acc)
+          | fuel+1 =>
+            match earliest a with
+            | some (id, due) =>
+              if due ≤ a.now then
+                let (a', acts) := onTimer st.s.core cv.screen a id
+                go fuel a' cv (acc ++ acts)
+              else (a, acc)
+            | none => (a, acc)
+        let (a', acts) := go 1000 a d.cv []
+        ({ d with app := some a', cv := { d.cv with ptrX := a'.ptr.x, ptrY := a'.ptr.y } },
+          s!"t={a'.now} " ++ (if acts.isEmpty then "-" else " ".intercalate (acts.map actTok)))
+    | _, _ => (d, "bad-op")
+  | ["app-op", c] =>
+    match d.app, d.rfb, parseCmdTok c with
+    | some a, some st, some c =>
+      let r := startCmd a st.s.core d.cv.screen c
+      let tail := match r.2.2 with | .fail cls => ["raise:" ++ cls] | _ => []
+      ({ d with app := some r.1, cv := { d.cv with ptrX := r.1.ptr.x, ptrY := r.1.ptr.y } },
+        let toks := r.2.1.map actTok ++ tail
+        if toks.isEmpty then "-" else " ".intercalate toks)
+    | _, _, _ => (d, "bad-op")
+  | ["app-plainwait", inc] =>
+    match d.app, d.rfb, parseBool? inc with
+    | some a, some st, some inc =>
+      ({ d with app := some { a with waiter := some .plain } }, " ".intercalate ((requestAll st.s.core inc).map actTok))
+    | _, _, _ => (d, "bad-op")
+  | ["app-exit", ev] =>
+    match d.app with
+    | some a =>
+      let e? : Option ExitEv := match ev with
+        | "connectfailed" => some .connectFailed | "lost-clean" => some (.lost true) | "lost-error" => some (.lost false)
+        | "timeout" => some .timeout | _ => none
+      match e? with
+      | some e =>
+        let x := exitStep a.completed d.exit a.now e
+        ({ d with exit := x }, s!"status={x.status} stop={match x.stopAt with | some t => toString t | none => "none"}")
+      | none => (d, "bad-op")
+    | none => (d, "bad-op")
+  | ["app-now", t] =>
+    match d.app, t.toNat? with
+    | some a, some t => ({ d with app := some { a with now := t } }, "ok")
+    | _, _ => (d, "bad-op")
   | ["rfb-screen"] => (d, screenTok d.cv)
   | ["cv-new", nc, m] =>
     match parseBool? nc, strOfHex m with
